@@ -8,20 +8,35 @@ CONFIG = {
                   "Lean for all channel tables, allow-lists, server kinds and requested strings, over a model of Channels.Find/Filter, "
                   "every Startup's filter-error path, handler registration and muxHandler; the model is tied to the real "
                   "Filter/Find, the real Startup of each server kind and the real multiplexToUpstream/muxHandler against the real "
-                  "multistream client by a differential run.",
+                  "multistream client by a differential run. Per endpoint: C03_routeAt_iff / C03_refusedAt_no_dial / "
+                  "C03_endpoint_isolated state the same for a configuration of several servers sharing the channel table and several "
+                  "websocket paths per HTTP server -- the deciding allow-list is the one configured for the (server, path) the request "
+                  "arrived on; component expose compares that model per (endpoint, requested name) with real servers driven end to "
+                  "end by the real client stack (websocket dial to the path / tcp / kcp / stdio pipes -> socketace handshake -> smux "
+                  "-> multistream) and recording targets.",
     "level_note": "go-multistream's handler matching is third-party: the theorems assume its exact-match contract (hypothesis hms) and "
-                  "the correspondence validates it on the real library. HTTP: the per-endpoint list lives in a closure, so the harness "
-                  "takes it from the same Filter call Startup makes; chi's path routing to an endpoint is not modelled. The data path "
-                  "after OpenConnection is C01's business (targets hang up at once).",
+                  "the correspondence validates it on the real library. chi's path routing is third-party: the model assumes a path is served by the handler registered for exactly "
+                  "that path (distinct literal paths only; validated end to end by expose, duplicate paths and chi patterns are not "
+                  "generated). Component route still takes the HTTP per-endpoint list from the same Filter call; expose does not. "
+                  "DNS servers are driven only by route (Startup), not end to end. The data path after OpenConnection is C01's business "
+                  "(expose reads one greeting line from the target).",
     "technique": "Lean 4 proof (decision logic stated outright, induction over the allow-list) + model/code differential correspondence "
                  "+ direct monitor (which target was dialled, how many dials)",
-    "components": [{"name": "route", "timeout": {"quick": 300, "thorough": 1500}}],
+    "components": [{"name": "route", "timeout": {"quick": 300, "thorough": 1500}},
+                   {"name": "expose", "timeout": {"quick": 300, "thorough": 1500}}],
     "rule": "route: 6 server kinds/endpoint variants x 12 enumerated channel tables (0-6 channels, duplicates, prefixes, case variants, "
             "empty name, names 'ls'/'na') x 12 allow-lists (empty, subset, unknown, mixed, duplicates, case variant, prefix) x requested "
             "names from the pool + raw protocol ids without/with extra slashes; 4 DNS server starts; 1500 (quick) / 15000 (thorough) "
-            "random tables/allow-lists/requests incl. mutations (case, prefix, extension, slash); non-trivial = a listening server got a request",
+            "random tables/allow-lists/requests incl. mutations (case, prefix, extension, slash); non-trivial = a listening server got a request. "
+            "expose: one HTTP server with two websocket paths x every ordered pair of 6 (thorough 10) allow-lists x 2 (4) tables x request on "
+            "each path and on an unregistered path x every configured name + unknown (+ case/prefix/extension variants); three paths "
+            "(one a prefix of the others) x 64 allow-list triples x 4 paths x 4 names; socket+packet+stdio+http(2 paths) sharing one table "
+            "in 6 orders x 9 allow-list assignments (incl. unknown names) x request on each of the 5 endpoints x 4 names; two HTTP servers "
+            "with the same paths; 1200 (quick) / 12000 (thorough) random configurations of 1-4 servers (half HTTP with 1-3 paths), random "
+            "tables, allow-lists, endpoint and name; non-trivial = the request reached a served endpoint",
     "trusted_base": COMMON_TB + ["model SA.Model.Routing hand-written; shape facts of Filter/Find/Startup/muxHandler regenerated (SA/Gen/C03.lean)",
-                                 "go-multistream exact-match contract (hypothesis, validated by correspondence)"],
+                                 "go-multistream exact-match contract (hypothesis, validated by correspondence)",
+                                 "go-chi routes a literal path to the handler registered for it (validated end to end by expose)"],
     "assumptions": ["multistream selects a handler iff the requested token equals a registered protocol id (hms)",
                     "one request per logical stream, as Upstreams.openStream issues them"],
 }
